@@ -135,21 +135,38 @@ def fieldShapeOk (ss : Schemas) (f : Field) (resolved : Ty) (extras : List (Stri
             | _ => false))
     | _ => false
 
-mutual
+def allFields (g : Field → Bool) : List Field → Bool
+  | [] => true
+  | f :: fs => g f && allFields g fs
+
+def fieldDefaultOkAt (ss : Schemas) (f : Field) (extras : List (String × Val)) (nestedOk : List Field → Val → Bool) : Bool :=
+  match ss.resolveToType (ss.objectCount + 2) f.ty with
+  | none => false
+  | some resolved => fieldShapeOk ss f resolved extras nestedOk
+
 /-- the literal `defaultsForStruct` prints for a struct is well-typed; fuel bounds the nesting of
     struct defaults exactly as in the printer -/
 def structDefaultOk (ss : Schemas) : Nat → List Field → Val → Bool
   | 0, _, _ => false
-  | fuel + 1, fields, extra => defaultsOk ss fuel fields (extrasOf extra)
-def defaultsOk (ss : Schemas) : Nat → List Field → List (String × Val) → Bool
-  | _, [], _ => true
-  | fuel, f :: fs, extras => fieldDefaultOk ss fuel f extras && defaultsOk ss fuel fs extras
-def fieldDefaultOk (ss : Schemas) : Nat → Field → List (String × Val) → Bool
-  | fuel, f, extras =>
-    match ss.resolveToType (ss.objectCount + 2) f.ty with
-    | none => false
-    | some resolved => fieldShapeOk ss f resolved extras (fun rfs d => structDefaultOk ss fuel rfs d)
-end
+  | fuel + 1, fields, extra =>
+    allFields (fun f => fieldDefaultOkAt ss f (extrasOf extra) (fun rfs d => structDefaultOk ss fuel rfs d)) fields
+
+def fieldDefaultOk (ss : Schemas) (fuel : Nat) (f : Field) (extras : List (String × Val)) : Bool :=
+  fieldDefaultOkAt ss f extras (fun rfs d => structDefaultOk ss fuel rfs d)
+
+def defaultsOk (ss : Schemas) (fuel : Nat) (fs : List Field) (extras : List (String × Val)) : Bool :=
+  allFields (fun f => fieldDefaultOk ss fuel f extras) fs
+
+theorem structDefaultOk_zero (ss : Schemas) (fs : List Field) (d : Val) : structDefaultOk ss 0 fs d = false := rfl
+theorem structDefaultOk_succ (ss : Schemas) (fuel : Nat) (fs : List Field) (d : Val) :
+    structDefaultOk ss (fuel + 1) fs d = defaultsOk ss fuel fs (extrasOf d) := rfl
+theorem defaultsOk_cons (ss : Schemas) (fuel : Nat) (f : Field) (fs : List Field) (extras : List (String × Val)) :
+    defaultsOk ss fuel (f :: fs) extras = (fieldDefaultOk ss fuel f extras && defaultsOk ss fuel fs extras) := rfl
+theorem fieldDefaultOk_eq (ss : Schemas) (fuel : Nat) (f : Field) (extras : List (String × Val)) :
+    fieldDefaultOk ss fuel f extras =
+      (match ss.resolveToType (ss.objectCount + 2) f.ty with
+        | none => false
+        | some resolved => fieldShapeOk ss f resolved extras (fun rfs d => structDefaultOk ss fuel rfs d)) := rfl
 
 /-! ## objects, schemas -/
 
